@@ -39,14 +39,15 @@ RULE = (
 )
 BOUNDS = {
     "quick": "4 roots (StateVector/Orbit x full/bare); histories of length <= 3 with the full alphabet (3 forms x 3 frames, "
-    "3 live objects); 2 full roots: length <= 4 with the core alphabet; access product over all 10 forms x 2 frames; "
+    "3 live objects); 2 full roots: length <= 4 with the core alphabet + centre-failing frame change + infos read; access product over all 10 forms x 2 frames; "
     "12 collision chains (4 epochs / 3 orbits / 3 root forms, both orders, one process each, full alphabet length <= 2); "
     "dynamic frames (user frame, station, orbit-attached frame, Hill): histories of length <= 4 of dumps / loads / "
     "re-register the frame name with another definition / write / metadata / copy / frame assignment",
     "thorough": "6 roots (also covariance only / maneuvers only): histories of length <= 4 with the full alphabet; 2 full "
     "roots: histories of length <= 6 (the property's bound) with the core alphabet (2 forms, 2 frames, 2 live objects; "
     "copy, copy(form), copy(frame), as_orbit/as_statevector, form=, frame=, frame=Hill (fails half-way), write by index, "
-    "append / edit a maneuver, write a covariance cell); access product over all 10 forms x 2 frames; collision chains "
+    "append / edit a maneuver, write a covariance cell) and length <= 5 with the core alphabet + centre-failing frame change + "
+    "infos read; access product over all 10 forms x 2 frames; collision chains "
     "with the full alphabet to length 3; dynamic-frame histories to length 5 (the length-4 search of the four secondary "
     "roots runs without the infos read)",
 }
@@ -309,7 +310,9 @@ LEVELS = {
     "reduced": (FORMS_RED, FRAMES_RED, 2, {"copy", "copy_form", "copy_frame", "pickle", "conv", "form", "frame", "bad_form",
                                             "bad_frame", "hill", "bad_center", "bad_ephem", "copy_bad_center", "read_infos", "w_idx", "w_name", "w_alias", "meta", "man_append",
                                             "man_edit", "cov_cell"}),
-    "core": (FORMS_RED, FRAMES_RED, 2, {"copy", "copy_form", "copy_frame", "conv", "form", "frame", "hill", "bad_center", "read_infos", "w_idx",
+    "core": (FORMS_RED, FRAMES_RED, 2, {"copy", "copy_form", "copy_frame", "conv", "form", "frame", "hill", "w_idx",
+                                         "man_append", "man_edit", "cov_cell"}),
+    "core-plus": (FORMS_RED, FRAMES_RED, 2, {"copy", "copy_form", "copy_frame", "conv", "form", "frame", "hill", "bad_center", "read_infos", "w_idx",
                                          "man_append", "man_edit", "cov_cell"}),
 }
 
@@ -1370,12 +1373,14 @@ def units(tier, seed):
                 u.append((cfg, dict(part="hist", root=r, depth=3, level="full", first=[s, split])))
         for r in ("sv_full", "orb_full"):
             for s in range(4):
-                u.append((cfg, dict(part="hist", root=r, depth=4, level="core", first=[s, 4])))
+                u.append((cfg, dict(part="hist", root=r, depth=4, level="core-plus", first=[s, 4])))
     else:
         split = 16
         for r in ("sv_full", "orb_full"):
             for s in range(11):
                 u.append((cfg, dict(part="hist", root=r, depth=6, level="core", first=[s, 11])))
+            for s in range(13):
+                u.append((cfg, dict(part="hist", root=r, depth=5, level="core-plus", first=[s, 13])))
         for r in ROOTS:
             lvl = "full" if r in ("sv_full", "orb_full") else "full-noinfos"
             for s in range(split):
